@@ -473,8 +473,27 @@ class C05(Property):
     id = "C05"
     title = "validate() follows the documented two-phase, all-elements algorithm"
     proof_module = "Proofs.C05Ext"
-    level_text = 'Lean 4 refinement theorem `validate_refines`: the queue algorithm of Element.validate equals the documented declarative semantics (level order over the tree pruned at SkipAll/SkipAllFalse; per-element verdict; exact call log; return value) for every tree and every outcome assignment; corollaries for each clause; the `.valid` store across calls is part of the model (`validNow`): `unvisited_untouched`, `visited_own_verdict`, `revalidate_store`, and `fresh_ret_eq_all_valid` (return value = all_valid over EVERY element of a fresh tree, for trees with distinct elements). The real validate_element and re-validation of the same element tree are tied by correspondence (exhaustive 2-node scope + random trees, 1-3 re-validations).'
-    level_note = 'Trusted: Lean kernel + 3 standard axioms; hand-written model Flatland/C05.lean; validators are black boxes returning one of the six outcomes; trees without shared nodes; blinker signals not modelled; validate(recurse=False) not covered.'
+    level_text = ('Lean 4 refinement theorem `validate_refines`: the queue algorithm of Element.validate equals the documented declarative '
+                  'semantics (level order over the tree pruned at SkipAll/SkipAllFalse; per-element verdict; exact call log; return value) for every '
+                  'tree and every outcome assignment; corollaries for each clause; the `.valid` store across calls is part of the model: '
+                  '`unvisited_untouched`, `visited_own_verdict`, `revalidate_store`, `fresh_ret_eq_all_valid`, generalised by '
+                  '`ret_eq_all_valid_of_store` / `ret_eq_all_valid_after_set` to every history that leaves the unvisited elements truthy (the '
+                  '`all_valid` setter before validating) and refuted otherwise (`ret_ne_all_valid_after_set_false`); `all_valid_after_set` '
+                  '(setter writes the element and all descendants, getter = conjunction, nothing outside written), `all_valid_getter_level_order`. '
+                  '`validate(recurse=False)`: `validate_norecurse_refines` (as written: descent then ascent on the one element, exact log, last '
+                  'evaluating phase decides), `norecurse_children_untouched`; the DOCUMENTED statement (own verdict by the rules of the full '
+                  'algorithm) is `NoRecurse_Full`, proved under `phasesAgree` (`validate_norecurse_refines_partial`, `norecurse_eq_single`) and '
+                  'refuted by a witness (`norecurse_full_fails`, finding KF-C05-a). `validator_validated`: `trace_refines` (one signal right '
+                  'after each validator invoked, raw result, NotEmpty for the fallback), `signals_eq_calls` (invocations in the trace = call log), '
+                  '`trace_signals`, `norecurse_trace_refines`. Tied to the real code by correspondence on histories (full validations, '
+                  'recurse=False on a random element after 0-2 full validations, all_valid assignments, 40% with a receiver connected) over trees '
+                  'of EVERY element kind (String/Integer/Boolean, Dict, SparseDict, List, Array, MultiValue, JoinedString, DateYYYYMMDD), the '
+                  'container / non-container variant of each node computed from the class flags validates_down / validates_up at run time.')
+    level_note = ('Trusted: Lean kernel + 3 standard axioms; hand-written model Flatland/C05.lean; validators are black boxes returning one of the '
+                  'six outcomes; trees without shared nodes; the model distinguishes the two `_validate` variants only (which class is which: '
+                  'Proofs.ClassTable.validates_agree / validate_definers on the regenerated class table, and the flags read at run time); '
+                  'is_empty of a node is an input of the model, compared on every step with the real is_empty and with the documented per-kind '
+                  'definition; blinker dispatch itself (receiver lookup, weak references) is not modelled, only what validate_element sends.')
     technique = 'Lean 4 proof (refinement of a queue loop to a declarative spec); differential correspondence incl. exhaustive small scope; Python oracle'
     theorems = [
         "Flatland.C05.Proofs.validate_refines",
@@ -510,18 +529,21 @@ class C05(Property):
     trusted_base = [
         "validators modelled as black boxes returning one of the six outcomes and logging their call",
         "element tree has no shared nodes (the `seen` set of the loop is not modelled)",
-        "blinker signal dispatch (validator_validated) not modelled",
+        "blinker dispatch (receiver bookkeeping) not modelled: the model says what validate_element sends while a receiver is connected",
     ]
     assumptions = [
-        "is_empty/optional of a node are inputs of the model; the harness asserts they match the real element",
-        "validate(recurse=False) is not covered",
+        "is_empty/optional of a node are inputs of the model; every step compares the real is_empty of every element with the model input and with the documented per-kind definition (oracle clause is-empty-means-no-content)",
+        "container? of a node is computed from the real class flags (validates_up is not None) when the case runs; down/up lists are installed under the attributes the flags name",
+        "validate(recurse=False): the documented own-verdict statement holds under phasesAgree only (KF-C05-a: a passing ascent list overrides a failed descent list)",
     ]
-    rule = ("(half of the cases re-validate the same element tree 1-3 more times with new outcomes, flags and scalar emptiness) "
-            "trees of String/Dict/List nodes (List members share one member schema), per-node optional/empty flags and "
-            "0-3 outcomes per validator list; exhaustive sub-space: every 2-node tree (container root + one scalar) over "
-            "all outcome lists of length <=1 and all flags; non-trivial = at least 2 validators invoked or a SkipAll cut "
-            "or an optional-empty skip; distinct = distinct canonical case JSON")
-    exhaustive_note = "all 2-node trees (Dict or List root with one String child), validator lists of length <= 1, all flags; plus every ordered tree shape with 2-3 nodes (thorough: 2-4) (scalar leaves) under a Dict root, descent lists from {none,T,F,SkipAll,SkipAllFalse}, ascent lists from {none,T,F}"
+    rule = ("histories on ONE element tree: 1-5 steps from {validate(), validate(recurse=False) on a random element, el.all_valid = True/False/"
+            "Unevaluated on a random element}, later steps re-assigning outcomes / optional flags / leaf emptiness for half of the steps; 40% of the "
+            "cases with a receiver connected to validator_validated (disconnected afterwards; the oracle checks none is left); trees of String / "
+            "Integer / Boolean leaves (non-empty leaves also hold the falsy 0 / False), Dict, SparseDict (present + absent fields), List (one member "
+            "shape), Array / MultiValue (scalar members), JoinedString, DateYYYYMMDD; a third of the sequences have only falsy members; 0-3 outcomes "
+            "per validator list; exhaustive sub-space: every 2-node tree (container root + one scalar) over all outcome lists of length <=1 and all "
+            "flags; non-trivial = at least 2 validators invoked or an element left Unevaluated; distinct = distinct canonical case JSON")
+    exhaustive_note = "all 2-node trees (Dict or List root with one String child), validator lists of length <= 1, all flags; plus every ordered tree shape with 2-3 nodes (thorough: 2-4) (scalar leaves) under a Dict root, descent lists from {none,T,F,SkipAll,SkipAllFalse}, ascent lists from {none,T,F}; full validate() only (recurse=False / all_valid / signals: generated histories)"
     quick_n = 3000
     thorough_n = 150000
 
